@@ -90,6 +90,14 @@ func main() {
 			run.TheJournal = run.OpenJournal(a[8])
 		}
 		schd.RunJob(a[2], a[3], atoi(a[4]), atoi(a[5]), atoi(a[6]), atoi(a[9]), raceLog(), a[7], int64(atoi(a[10])))
+	case "jobs":
+		// jobs <ID> <tier> <listfile> <journaldir> <slot> <deadline>
+		a := os.Args
+		atoi := func(s string) int { n := 0; fmt.Sscan(s, &n); return n }
+		if a[5] != "" {
+			run.TheJournal = run.OpenJournal(a[5])
+		}
+		schd.RunJobs(a[2], a[3], a[4], atoi(a[6]), raceLog(), int64(atoi(a[7])))
 	case "replay":
 		b, err := os.ReadFile(os.Args[2])
 		if err != nil {
